@@ -123,49 +123,53 @@ theorem exactSum_ints_scale (s : Seq) (hi : s.all Atom.isInt = true) : ∀ acc :
     simp only [List.all_cons, Bool.and_eq_true] at hi
     cases a <;> simp_all [Atom.isInt]
 
-/-! ### compensated summation and NaN -/
+/-! ### the addition loop and NaN -/
 
 theorem D.add_nan_left (b : D) : D.add .nan b = .nan := by cases b <;> rfl
 theorem D.add_nan_right (a : D) : D.add a .nan = .nan := by cases a <;> rfl
 
-theorem neumaierLoop_nan (c : D) (xs : List D) : (neumaierLoop .nan c xs).1 = .nan := by
-  induction xs generalizing c with
+theorem sumRightLoop_eq (acc : D) (l : List D) :
+    sumRightLoop acc l = l.foldl (fun acc x => D.add x acc) acc := by
+  induction l generalizing acc with
   | nil => rfl
-  | cons x xs ih => simp only [neumaierLoop, D.add_nan_left]; exact ih _
+  | cons x xs ih => simp [sumRightLoop, ih]
 
-theorem neumaierLoop_has_nan (f c : D) (xs : List D) (h : D.nan ∈ xs) : (neumaierLoop f c xs).1 = .nan := by
-  induction xs generalizing f c with
-  | nil => cases h
-  | cons x xs ih =>
-    simp only [neumaierLoop]
-    rcases List.mem_cons.mp h with h | h
-    · subst h; rw [D.add_nan_right]; exact neumaierLoop_nan _ _
-    · exact ih _ _ h
-
-theorem neumaierLoop_c_nan (f : D) (xs : List D) : (neumaierLoop f .nan xs).2 = .nan := by
-  induction xs generalizing f with
+theorem sumDoubles_snoc (init : List D) (last : D) :
+    sumDoubles (init ++ [last]) = init.foldr (fun x r => D.add x r) last := by
+  induction init with
   | nil => rfl
   | cons x xs ih =>
-    simp only [neumaierLoop, D.add_nan_left]
-    cases D.absGe f x <;> exact ih _
+    cases xs with
+    | nil => rfl
+    | cons y ys =>
+      simp only [List.cons_append, List.foldr_cons] at ih ⊢
+      rw [sumDoubles, ih]
 
-theorem neumaierSum_has_nan (l : List D) (h : D.nan ∈ l) : neumaierSum l = .nan := by
-  cases l with
+theorem sumRight_eq (l : List D) : sumRight l = sumDoubles l := by
+  unfold sumRight
+  cases h : l.reverse with
+  | nil => simp at h; subst h; rfl
+  | cons last revInit =>
+    have hl : l = revInit.reverse ++ [last] := by
+      have := congrArg List.reverse h
+      simpa using this
+    show sumRightLoop last revInit = sumDoubles l
+    rw [hl, sumDoubles_snoc, sumRightLoop_eq]
+    have := List.foldl_reverse (l := revInit.reverse) (f := fun acc x => D.add x acc) (b := last)
+    simpa using this
+
+theorem sumDoubles_has_nan (l : List D) (h : D.nan ∈ l) : sumDoubles l = .nan := by
+  induction l with
   | nil => cases h
-  | cons x xs =>
-    simp only [neumaierSum]
-    have hf : (neumaierLoop x (.fin 0 0) xs).1 = .nan := by
+  | cons x xs ih =>
+    cases xs with
+    | nil =>
+      simp at h; subst h; rfl
+    | cons y ys =>
+      rw [sumDoubles]
       rcases List.mem_cons.mp h with h | h
-      · subst h; exact neumaierLoop_nan _ _
-      · exact neumaierLoop_has_nan _ _ _ h
-    generalize hr : neumaierLoop x (.fin 0 0) xs = r at hf
-    obtain ⟨f, c⟩ := r
-    simp only at hf
-    subst hf
-    simp only []
-    split
-    · exact D.add_nan_left _
-    · rfl
+      · subst h; exact D.add_nan_left _
+      · rw [ih h]; exact D.add_nan_right _
 
 theorem any_isNaN_mem (s : Seq) (h : s.any Atom.isNaN = true) : D.nan ∈ s.map toDouble := by
   induction s with
@@ -203,96 +207,86 @@ theorem zero_arg_eq (zero : Option Seq) :
   | some [_] => rfl
   | some (_ :: _ :: _) => rfl
 
-theorem neumaierSum_single (x : D) : neumaierSum [x] = x := by
-  simp [neumaierSum, neumaierLoop, D.isZero]
-
-theorem fnSum_eq (s : Seq) (zero : Option Seq) : fnSum s zero = Spec.fnSum pySum s zero := by
-  unfold fnSum Spec.fnSum
-  rw [outside_eq]
-  cases ho : outsideAgg s with
-  | true => simp
-  | false =>
-    simp only [Bool.false_eq_true, if_false]
-    match s, ho with
-    | [], _ => simp only [List.isEmpty_nil, if_true]; exact zero_arg_eq zero
-    | [a], ho =>
-      rw [← outside_eq] at ho
-      cases a with
-      | int n => rfl
-      | dec m k => rfl
-      | bool b => rfl
-      | str t => rfl
-      | untyped t => simp [Atom.isNode, Atom.isUntyped] at ho
-      | node i => simp [Atom.isNode, Atom.isUntyped] at ho
-      | dbl d =>
-        cases d <;>
-          simp [Atom.isBool, Atom.isInt, Atom.isDec, Atom.isStr, Atom.isNaN, kind, neumaierSum_single, Atom.toD]
-    | a :: b :: rest, ho =>
-      simp only [List.isEmpty_cons, Bool.false_eq_true, if_false]
-      rw [allKind_num _ ho, allInt_eq, anyDouble_eq]
-      cases hb : (a :: b :: rest).any Atom.isBool with
-      | true => simp
+theorem sumCore_eq (s : Seq) (zero : Option Seq) (ho : outsideAgg s = false) :
+    sumCore s zero = Spec.sumCore foSum s zero := by
+  unfold sumCore Spec.sumCore
+  simp only [ho, Bool.false_eq_true, if_false]
+  match s, ho with
+  | [], _ => simp only [List.isEmpty_nil, if_true]; exact zero_arg_eq zero
+  | [a], ho =>
+    rw [← outside_eq] at ho
+    cases a with
+    | int n => rfl
+    | dec m k => rfl
+    | bool b => rfl
+    | str t => rfl
+    | untyped t => simp [Atom.isNode, Atom.isUntyped] at ho
+    | node i => simp [Atom.isNode, Atom.isUntyped] at ho
+    | dbl d =>
+      cases d <;>
+        simp [Atom.isBool, Atom.isInt, Atom.isDec, Atom.isStr, Atom.isNaN, kind, sumRight, sumRightLoop, Atom.toD]
+  | a :: b :: rest, ho =>
+    simp only [List.isEmpty_cons, Bool.false_eq_true, if_false]
+    rw [allKind_num _ ho, allInt_eq, anyDouble_eq]
+    cases hb : (a :: b :: rest).any Atom.isBool with
+    | true => simp
+    | false =>
+      simp only [Bool.false_eq_true, if_false, Bool.not_false, Bool.true_and]
+      cases hd : (a :: b :: rest).all (fun a => a.isInt || a.isDec) with
+      | true =>
+        obtain ⟨_, hs, _⟩ := intdec_props _ hd
+        simp only [if_true, hs, Bool.not_false, Bool.not_true, Bool.false_eq_true, if_false,
+          no_double _ hd, sumExact_eq _ hd]
       | false =>
-        simp only [Bool.false_eq_true, if_false, Bool.not_false, Bool.true_and]
-        cases hd : (a :: b :: rest).all (fun a => a.isInt || a.isDec) with
-        | true =>
-          obtain ⟨_, hs, _⟩ := intdec_props _ hd
-          simp only [if_true, hs, Bool.not_false, Bool.not_true, Bool.false_eq_true, if_false,
-            no_double _ hd, sumExact_eq _ hd]
+        simp only [Bool.false_eq_true, if_false]
+        cases hs : (a :: b :: rest).any Atom.isStr with
+        | true => simp
         | false =>
-          simp only [Bool.false_eq_true, if_false]
-          cases hs : (a :: b :: rest).any Atom.isStr with
-          | true => simp
-          | false =>
-            have hdbl := has_double _ ho hb hs hd
-            simp only [hdbl, Bool.not_false, Bool.not_true, Bool.false_eq_true, if_false, if_true, pySum, map_toD]
-            cases hn : (a :: b :: rest).any Atom.isNaN with
-            | true =>
-              simp only [if_true]
-              rw [neumaierSum_has_nan _ (any_isNaN_mem _ hn)]
-            | false => simp
+          have hdbl := has_double _ ho hb hs hd
+          simp only [hdbl, Bool.not_false, Bool.not_true, Bool.false_eq_true, if_false, if_true, foSum, map_toD,
+            sumRight_eq]
+          cases hn : (a :: b :: rest).any Atom.isNaN with
+          | true =>
+            simp only [if_true]
+            rw [sumDoubles_has_nan _ (any_isNaN_mem _ hn)]
+          | false => simp
 
 /-! ### avg -/
 
-theorem fnAvg_eq (s : Seq) : fnAvg s = Spec.fnAvg pySum s := by
-  unfold fnAvg Spec.fnAvg
-  rw [outside_eq]
-  cases ho : outsideAgg s with
-  | true => simp
-  | false =>
-    simp only [Bool.false_eq_true, if_false]
-    match s, ho with
-    | [], _ => simp
-    | a :: rest, ho =>
-      simp only [List.isEmpty_cons, Bool.false_eq_true, if_false]
-      rw [allKind_num _ ho, allInt_eq, anyDouble_eq, count_eq_length]
-      cases hb : (a :: rest).any Atom.isBool with
-      | true => simp
+theorem avgCore_eq (s : Seq) (ho : outsideAgg s = false) (hb : s.any Atom.isBool = false) :
+    avgCore s = Spec.avgCore foSum s := by
+  unfold avgCore Spec.avgCore
+  simp only [ho, Bool.false_eq_true, if_false]
+  match s, ho, hb with
+  | [], _, _ => simp
+  | a :: rest, ho, hb =>
+    simp only [List.isEmpty_cons, Bool.false_eq_true, if_false]
+    rw [allKind_num _ ho, allInt_eq, anyDouble_eq, count_eq_length]
+    simp only [hb, Bool.not_false, Bool.true_and]
+    cases hi : (a :: rest).all Atom.isInt with
+    | true =>
+      have hd : (a :: rest).all (fun a => a.isInt || a.isDec) = true := by
+        rw [List.all_eq_true] at hi ⊢
+        intro x hx; simp [hi x hx]
+      obtain ⟨_, hs, _⟩ := intdec_props _ hd
+      have hsc : (exactSum (a :: rest)).2 = 0 := exactSum_ints_scale _ hi (0, 0) rfl
+      simp only [if_true, hs, Bool.not_false, Bool.not_true, Bool.false_eq_true, if_false,
+        no_double _ hd, sumExact_eq _ hd, hsc, Nat.pow_zero, Nat.one_mul, true_and]
+    | false =>
+      simp only [Bool.false_eq_true, if_false]
+      cases hd : (a :: rest).all (fun a => a.isInt || a.isDec) with
+      | true =>
+        obtain ⟨_, hs, _⟩ := intdec_props _ hd
+        simp only [if_true, hs, Bool.not_false, Bool.not_true, Bool.false_eq_true, if_false,
+          no_double _ hd, sumExact_eq _ hd, false_and]
       | false =>
-        simp only [Bool.false_eq_true, if_false, Bool.not_false, Bool.true_and]
-        cases hi : (a :: rest).all Atom.isInt with
-        | true =>
-          have hd : (a :: rest).all (fun a => a.isInt || a.isDec) = true := by
-            rw [List.all_eq_true] at hi ⊢
-            intro x hx; simp [hi x hx]
-          obtain ⟨_, hs, _⟩ := intdec_props _ hd
-          have hsc : (exactSum (a :: rest)).2 = 0 := exactSum_ints_scale _ hi (0, 0) rfl
-          simp only [if_true, hs, Bool.not_false, Bool.not_true, Bool.false_eq_true, if_false,
-            no_double _ hd, sumExact_eq _ hd, hsc, Nat.pow_zero, Nat.one_mul, true_and]
+        simp only [Bool.false_eq_true, if_false]
+        cases hs : (a :: rest).any Atom.isStr with
+        | true => simp
         | false =>
-          simp only [Bool.false_eq_true, if_false]
-          cases hd : (a :: rest).all (fun a => a.isInt || a.isDec) with
-          | true =>
-            obtain ⟨_, hs, _⟩ := intdec_props _ hd
-            simp only [if_true, hs, Bool.not_false, Bool.not_true, Bool.false_eq_true, if_false,
-              no_double _ hd, sumExact_eq _ hd, false_and]
-          | false =>
-            simp only [Bool.false_eq_true, if_false]
-            cases hs : (a :: rest).any Atom.isStr with
-            | true => simp
-            | false =>
-              have hdbl := has_double _ ho hb hs hd
-              simp only [hdbl, Bool.not_false, Bool.not_true, Bool.false_eq_true, if_false, if_true, pySum]
+          have hdbl := has_double _ ho hb hs hd
+          simp only [hdbl, Bool.not_false, Bool.not_true, Bool.false_eq_true, if_false, if_true, foSum, map_toD,
+            sumRight_eq]
 
 /-! ### min / max -/
 
@@ -337,14 +331,14 @@ theorem any_str_not_all_bool (l : Seq) (h : l.any Atom.isStr = true) : l.all Ato
   obtain ⟨x, hx, hxs⟩ := List.any_eq_true.mp h
   exact ⟨x, hx, by cases x <;> simp_all [Atom.isStr, Atom.isBool]⟩
 
-theorem fnMinMax_eq (isMax : Bool) (s : Seq) : fnMinMax isMax s = Spec.fnMinMax isMax s := by
+theorem minMaxCore_eq (isMax : Bool) (s : Seq) (ho : outsideAgg s = false) :
+    minMaxCore isMax s = Spec.minMaxCore isMax s := by
   cases s with
-  | nil => simp [fnMinMax, Spec.fnMinMax, outsideAgg]
+  | nil => simp [minMaxCore, Spec.minMaxCore, outsideAgg]
   | cons a rest =>
-    simp only [fnMinMax, Spec.fnMinMax]
-    rw [outside_eq]
-    cases ho : outsideAgg (a :: rest) with
-    | true => simp
+    simp only [minMaxCore, Spec.minMaxCore]
+    cases hoo : outsideAgg (a :: rest) with
+    | true => rw [hoo] at ho; cases ho
     | false =>
       simp only [Bool.false_eq_true, if_false]
       rw [allKind_str _ ho, allKind_bool, allKind_num _ ho, anyDouble_eq, ← any_nan_eq]
@@ -389,6 +383,188 @@ theorem fnMinMax_eq (isMax : Bool) (s : Seq) : fnMinMax isMax s = Spec.fnMinMax 
                   rw [xvlt_better, toD_eq]
                   exact congrArg (fun m => Except.ok [Atom.dbl (toDouble m)])
                     (pyExtremum_eq (fun a b : Atom => XV.lt (exact a) (exact b)) isMax _ _)
+
+/-! ### the conversions in front of the aggregates -/
+
+theorem map_atomize (doc : List String) (v : Seq) : v.map (atomize doc) = v.map (atomized doc) := by
+  congr 1
+
+theorem castDouble_eq (t : String) : castDouble t = Spec.castDouble t := rfl
+
+theorem castUntypedItems_eq (s : Seq) : castUntypedItems s = castUntyped s := by
+  induction s with
+  | nil => rfl
+  | cons a rest ih => cases a <;> simp [castUntypedItems, castUntyped, ih, castDouble_eq]
+
+theorem castNodeItems_eq (doc : List String) (s : Seq) : castNodeItems doc s = castNodes doc s := by
+  induction s with
+  | nil => rfl
+  | cons a rest ih =>
+    cases a with
+    | node i => simp only [castNodeItems, castNodes, ih]; cases lexDouble (doc.getD i "") <;> rfl
+    | _ => simp [castNodeItems, castNodes, ih]
+
+theorem avgConvert_eq (s : Seq) : avgConvert s = avgItems s := by
+  induction s with
+  | nil => rfl
+  | cons a rest ih => cases a <;> simp [avgConvert, avgItems, ih, castDouble_eq]
+
+theorem minMaxConvert_eq (s : Seq) : minMaxConvert s = castUntyped s := by
+  induction s with
+  | nil => rfl
+  | cons a rest ih => cases a <;> simp [minMaxConvert, castUntyped, ih, castDouble_eq]
+
+/-- no xs:untypedAtomic item -/
+def noUntyped (s : Seq) : Bool := s.all fun a => !a.isUntyped
+/-- no node item -/
+def noNode (s : Seq) : Bool := s.all fun a => !a.isNode
+
+theorem outsideAgg_of (s : Seq) (hu : noUntyped s = true) (hn : noNode s = true) : outsideAgg s = false := by
+  rw [← outside_eq]
+  induction s with
+  | nil => rfl
+  | cons a rest ih =>
+    simp only [noUntyped, noNode, List.all_cons, Bool.and_eq_true] at hu hn
+    simp only [List.any_cons, Bool.or_eq_false_iff]
+    refine ⟨?_, ih hu.2 hn.2⟩
+    have h1 := hu.1; have h2 := hn.1
+    cases a <;> simp_all [Atom.isNode, Atom.isUntyped]
+
+theorem castUntyped_out (s v : Seq) (h : castUntyped s = .ok v) :
+    noUntyped v = true ∧ (noNode s = true → noNode v = true) := by
+  induction s generalizing v with
+  | nil => cases h; exact ⟨rfl, fun _ => rfl⟩
+  | cons a rest ih =>
+    cases a with
+    | untyped t =>
+      simp only [castUntyped, bind, Except.bind, pure, Except.pure] at h
+      cases hd : Spec.castDouble t with
+      | error e => rw [hd] at h; cases h
+      | ok d =>
+        rw [hd] at h
+        cases hr : castUntyped rest with
+        | error e => rw [hr] at h; cases h
+        | ok r =>
+          rw [hr] at h; cases h
+          obtain ⟨h1, h2⟩ := ih r hr
+          refine ⟨by simpa [noUntyped, Atom.isUntyped] using h1, fun hn => ?_⟩
+          simp only [noNode, List.all_cons, Bool.and_eq_true] at hn ⊢
+          exact ⟨by simp [Atom.isNode], h2 hn.2⟩
+    | int _ | dec _ _ | dbl _ | str _ | bool _ | node _ =>
+      simp only [castUntyped, bind, Except.bind, pure, Except.pure] at h
+      cases hr : castUntyped rest with
+      | error e => rw [hr] at h; cases h
+      | ok r =>
+        rw [hr] at h; cases h
+        obtain ⟨h1, h2⟩ := ih r hr
+        refine ⟨by simpa [noUntyped, Atom.isUntyped] using h1, fun hn => ?_⟩
+        simp only [noNode, List.all_cons, Bool.and_eq_true] at hn ⊢
+        exact ⟨hn.1, h2 hn.2⟩
+
+theorem castNodes_out (doc : List String) (s v : Seq) (h : castNodes doc s = .ok v) :
+    noNode v = true ∧ (noUntyped s = true → noUntyped v = true) := by
+  induction s generalizing v with
+  | nil => cases h; exact ⟨rfl, fun _ => rfl⟩
+  | cons a rest ih =>
+    cases a with
+    | node i =>
+      simp only [castNodes] at h
+      cases hd : lexDouble (doc.getD i "") with
+      | none => rw [hd] at h; cases h
+      | some d =>
+        rw [hd] at h
+        simp only [bind, Except.bind, pure, Except.pure] at h
+        cases hr : castNodes doc rest with
+        | error e => rw [hr] at h; cases h
+        | ok r =>
+          rw [hr] at h; cases h
+          obtain ⟨h1, h2⟩ := ih r hr
+          refine ⟨by simpa [noNode, Atom.isNode] using h1, fun hn => ?_⟩
+          simp only [noUntyped, List.all_cons, Bool.and_eq_true] at hn ⊢
+          exact ⟨by simp [Atom.isUntyped], h2 hn.2⟩
+    | int _ | dec _ _ | dbl _ | str _ | bool _ | untyped _ =>
+      simp only [castNodes, bind, Except.bind, pure, Except.pure] at h
+      cases hr : castNodes doc rest with
+      | error e => rw [hr] at h; cases h
+      | ok r =>
+        rw [hr] at h; cases h
+        obtain ⟨h1, h2⟩ := ih r hr
+        refine ⟨by simpa [noNode, Atom.isNode] using h1, fun hn => ?_⟩
+        simp only [noUntyped, List.all_cons, Bool.and_eq_true] at hn ⊢
+        exact ⟨hn.1, h2 hn.2⟩
+
+theorem atomized_noNode (doc : List String) (s : Seq) : noNode (s.map (atomized doc)) = true := by
+  induction s with
+  | nil => rfl
+  | cons a rest ih =>
+    simp only [noNode, List.map_cons, List.all_cons, Bool.and_eq_true]
+    exact ⟨by cases a <;> simp [atomized, Atom.isNode], ih⟩
+
+theorem avgItems_out (s v : Seq) (h : avgItems s = .ok v) :
+    noUntyped v = true ∧ v.any Atom.isBool = false ∧ (noNode s = true → noNode v = true) := by
+  induction s generalizing v with
+  | nil => cases h; exact ⟨rfl, rfl, fun _ => rfl⟩
+  | cons a rest ih =>
+    cases a with
+    | bool b => simp [avgItems] at h
+    | untyped t =>
+      simp only [avgItems, bind, Except.bind, pure, Except.pure] at h
+      cases hd : Spec.castDouble t with
+      | error e => rw [hd] at h; cases h
+      | ok d =>
+        rw [hd] at h
+        cases hr : avgItems rest with
+        | error e => rw [hr] at h; cases h
+        | ok r =>
+          rw [hr] at h; cases h
+          obtain ⟨h1, h2, h3⟩ := ih r hr
+          refine ⟨by simpa [noUntyped, Atom.isUntyped] using h1, by simpa [Atom.isBool] using h2, fun hn => ?_⟩
+          simp only [noNode, List.all_cons, Bool.and_eq_true] at hn ⊢
+          exact ⟨by simp [Atom.isNode], h3 hn.2⟩
+    | int _ | dec _ _ | dbl _ | str _ | node _ =>
+      simp only [avgItems, bind, Except.bind, pure, Except.pure] at h
+      cases hr : avgItems rest with
+      | error e => rw [hr] at h; cases h
+      | ok r =>
+        rw [hr] at h; cases h
+        obtain ⟨h1, h2, h3⟩ := ih r hr
+        refine ⟨by simpa [noUntyped, Atom.isUntyped] using h1, by simpa [Atom.isBool] using h2, fun hn => ?_⟩
+        simp only [noNode, List.all_cons, Bool.and_eq_true] at hn ⊢
+        exact ⟨hn.1, h3 hn.2⟩
+
+theorem fnSum_eq (doc : List String) (s : Seq) (zero : Option Seq) :
+    fnSum doc s zero = Spec.fnSum foSum doc s zero := by
+  simp only [fnSum, Spec.fnSum, castUntypedItems_eq, castNodeItems_eq, bind]
+  cases h1 : castUntyped s with
+  | error e => rfl
+  | ok v =>
+    simp only [Except.bind]
+    cases h2 : castNodes doc v with
+    | error e => rfl
+    | ok w =>
+      simp only []
+      obtain ⟨hu, _⟩ := castUntyped_out s v h1
+      obtain ⟨hn, hk⟩ := castNodes_out doc v w h2
+      exact sumCore_eq w zero (outsideAgg_of w (hk hu) hn)
+
+theorem fnAvg_eq (doc : List String) (s : Seq) : fnAvg doc s = Spec.fnAvg foSum doc s := by
+  simp only [fnAvg, Spec.fnAvg, avgConvert_eq, map_atomize, bind]
+  cases h1 : avgItems (s.map (atomized doc)) with
+  | error e => rfl
+  | ok v =>
+    simp only [Except.bind]
+    obtain ⟨hu, hb, hn⟩ := avgItems_out _ v h1
+    exact avgCore_eq v (outsideAgg_of v hu (hn (atomized_noNode doc s))) hb
+
+theorem fnMinMax_eq (doc : List String) (isMax : Bool) (s : Seq) :
+    fnMinMax doc isMax s = Spec.fnMinMax doc isMax s := by
+  simp only [fnMinMax, Spec.fnMinMax, minMaxConvert_eq, map_atomize, bind]
+  cases h1 : castUntyped (s.map (atomized doc)) with
+  | error e => rfl
+  | ok v =>
+    simp only [Except.bind]
+    obtain ⟨hu, hn⟩ := castUntyped_out _ v h1
+    exact minMaxCore_eq isMax v (outsideAgg_of v hu (hn (atomized_noNode doc s)))
 
 /-! ### value comparison -/
 
@@ -526,11 +702,8 @@ theorem posArg_eq (s : Seq) : posArg s = asRoundedDouble s := by
 
 /-! ### the function tables -/
 
-theorem map_atomize (doc : List String) (v : Seq) : v.map (atomize doc) = v.map (atomized doc) := by
-  congr 1
-
 theorem applyFn1_eq (doc : List String) (f : Fn1) (v : Seq) :
-    applyFn1 doc f v = Spec.applyFn1 pySum doc f v := by
+    applyFn1 doc f v = Spec.applyFn1 foSum doc f v := by
   cases f <;> simp only [applyFn1, Spec.applyFn1, count_eq_length, Spec.count, isEmpty_eq, isExists_eq,
     head_eq, tail_eq, reverse_eq, Spec.reverse, zeroOrOne_eq, oneOrMore_eq, exactlyOne_eq, fnSum_eq,
     fnAvg_eq, fnMinMax_eq, distinctValues_eq, fnStringJoin_eq, ebv_eq, fnRound_eq, map_atomize]
@@ -538,7 +711,7 @@ theorem applyFn1_eq (doc : List String) (f : Fn1) (v : Seq) :
   case boolean => cases Spec.ebv v <;> rfl
 
 theorem applyFn2_eq (doc : List String) (f : Fn2) (va vb : Seq) :
-    applyFn2 doc f va vb = Spec.applyFn2 pySum doc f va vb := by
+    applyFn2 doc f va vb = Spec.applyFn2 foSum doc f va vb := by
   cases f <;> simp only [applyFn2, Spec.applyFn2, intArg_eq, posArg_eq, fnStringJoin_eq, fnSum_eq]
   case remove => cases asInteger vb <;> simp [bind, Except.bind, Except.map, pure, Except.pure, remove_eq]
   case indexOf => split <;> simp_all [indexOf_eq, map_atomize, atomize_eq]
